@@ -21,7 +21,7 @@ def run_cases(cases, res, stratum):
         s, n, nf = c['x']; mask = (1 << n) - 1
         ux = c['cx'] & mask
         try:
-            x = A.mk(fx, np, s, n, nf, c['cx'])
+            x = A.mk(fx, np, s, n, nf, c['cx'], **({'array_output_type': 'array'} if c.get('aot') else {}))     # (how NumPy FUNCTION results are returned is a setting of x: the operators return fixed-point objects in both settings)
             if c['y'] is not None:
                 sy, ny, nfy = c['y']; y = A.mk(fx, np, sy, ny, nfy, c['cy'])
             else: y = c['cy']
@@ -200,7 +200,7 @@ def shard(shard, nshards, rng, tier, extra):
                 for cx in range(lo, hi + 1):
                     for cy in range(ly, hy + 1):
                         cases.append({'x': [s, n, rng.randint(0, n)], 'cx': cx, 'y': [sy, n, rng.randint(0, n)], 'cy': cy})
-                    cases.append({'x': [s, n, rng.randint(0, n)], 'cx': cx, 'y': None, 'cy': rng.randint(-(1 << n), (1 << (n + 1))), 'side': rng.choice(['left', 'right']), 'mask_carrier': rng.choice(['py', 'np'])})
+                    cases.append({'x': [s, n, rng.randint(0, n)], 'cx': cx, 'y': None, 'cy': rng.randint(-(1 << n), (1 << (n + 1))), 'side': rng.choice(['left', 'right']), 'mask_carrier': rng.choice(['py', 'np']), 'aot': rng.random() < 0.4})
     run_cases(cases, res, 'A:all-code-pairs-small')
     cases = []
     for _ in range((2500 if tier == 'quick' else 60000) // nshards):
@@ -209,7 +209,7 @@ def shard(shard, nshards, rng, tier, extra):
         y, cy = gen_y(rng, n)
         if y is not None:
             ly, hy = S.fmt_bounds(y[0], n); cy = rng.choice([ly, hy, 0, rng.randint(ly, hy)])
-        cases.append({'x': [s, n, rng.choice([0, 1, n // 2, n])], 'cx': cx, 'y': y, 'cy': cy, 'side': rng.choice(['left', 'right'])})
+        cases.append({'x': [s, n, rng.choice([0, 1, n // 2, n])], 'cx': cx, 'y': y, 'cy': cy, 'side': rng.choice(['left', 'right']), 'mask_carrier': rng.choice(['py', 'np']), 'aot': rng.random() < 0.3})
     run_cases(cases, res, 'B:wide-words')
     cases = []
     for _ in range((600 if tier == 'quick' else 15000) // nshards):
